@@ -171,6 +171,14 @@ class ValueGen:
             self.i += 1
             return op
         rng = self.rng
+        if getattr(self, "plan", None) and rng.random() < 0.6:
+            op = self.plan.pop(0)
+            for a in op["a"]:
+                if isinstance(a, dict) and a.get("ref") == "PLAN0":
+                    a["ref"] = self.plan_base
+            op["i"] = self.i
+            self.i += 1
+            return op
         for _attempt in range(40):
             client = rng.choices(self.clients, weights=self.cweights)[0]
             fam = rng.choice(CLIENT_FAMILIES[client])
@@ -185,7 +193,7 @@ class ValueGen:
                 not op.get("f")
                 and self.cfg.get("intr_rate", 0) > 0
                 and rng.random() < self.cfg["intr_rate"]
-                and not op["k"].startswith(("curve.set", "flt."))
+                and not op["k"].startswith(("curve.set", "flt.", "caller."))
             ):
                 op["intr"] = int(min(400, max(1, rng.expovariate(1.0 / self.cfg.get("intr_mean", 40)))))
                 op["f"] = "F7.interrupt"
@@ -339,8 +347,29 @@ class ValueGen:
         b = self.qt()
         u, c = self.unit_of(b), self.cat_of(b)
         form = rng.choice(
-            ["u", "u", "uc", "uc", "ucc", "nonec", "list1", "list", "ctor", "derived", "derived", "empty", "unknown", "unknown_c", "area", "legacy"]
+            ["u", "u", "uc", "uc", "ucc", "nonec", "list1", "list", "ctor", "derived", "derived", "empty", "unknown", "unknown_c", "area", "legacy", "reuse"]
         )
+        if form == "reuse":
+            # a caller builds one dict, requests a derived quantity, edits ITS OWN dict and re-uses it
+            if getattr(self, "plan", None):
+                return None
+            b2 = self.qt()
+            u2, c2 = self.unit_of(b2), self.cat_of(b2)
+            if c2 == c:
+                return None
+            e1 = rng.choice([1, 2, -1])
+            od = {"OD": [[c, {"L": [u, e1]}], [c2, {"L": [u2, rng.choice([1, -1, 2])]}]]}
+            first = self.op("caller.dict", "py", "identity", [od])
+            first["c"] = "inspector"
+            self.plan_base = self.i  # the step this op will get
+            mk = lambda: dict(self.op("mk.q.derived.shared", "Quantity", "CreateDerived", [{"ref": "PLAN0"}]), c="inspector")
+            if rng.random() < 0.5:
+                edit = self.op("caller.edit", "py", "edit_dict", [{"ref": "PLAN0"}, c, 0, self.unit_of(b, other_than=u)])
+            else:
+                edit = self.op("caller.edit", "py", "edit_dict", [{"ref": "PLAN0"}, c, 1, e1 + 1 if e1 + 1 != 0 else 3])
+            edit["c"] = "inspector"
+            self.plan = [mk(), edit, mk()]
+            return first
         op = None
         intern = True
         if form in ("unknown", "unknown_c") and self.cfg["world"] != "W-POSC":
@@ -372,7 +401,10 @@ class ValueGen:
                 )
             else:
                 od = {"OD": [[c, {"L": [u, e1]}], [c2, {"L": [u2, e2]}]]}
-                if rng.random() < 0.3:
+                if rng.random() < 0.3 and not getattr(self, "plan", None):
+                    rev = {"OD": [[c2, {"L": [u2, e2]}], [c, {"L": [u, e1]}]]}
+                    self.plan = [dict(self.op("mk.q.derived", "Quantity", "CreateDerived", [rev]), c="inspector")]
+                elif rng.random() < 0.3:
                     od = {"OD": [[c, {"L": [u, e1 if e1 != 1 else 2]}]]}
                 kw = {"unknown_unit_caption": "cap D"} if rng.random() < 0.15 else None
                 op = self.op("mk.q.derived", "Quantity", "CreateDerived", [od], kw=kw)
@@ -473,6 +505,9 @@ class ValueGen:
         if y is None:
             return None
         o = self.op("ar.obj." + opn, "py", opn, [ref(x[0]), ref(y[0])])
+        if opn == "mul" and rng.random() < 0.3 and not getattr(self, "plan", None):
+            # the commuted product: same composing map in another order (a different quantity)
+            self.plan = [dict(self.op("ar.obj.mul", "py", "mul", [ref(y[0]), ref(x[0])]), c="calculator")]
         return self.tag_incompat(o, x, y, opn)
 
     def tag_incompat(self, op, x, y, opn):
@@ -973,7 +1008,7 @@ class ValueGen:
             b2 = rng.choice(others)
             c, fu = self.cat_of(b1), self.unit_of(b2)
             spec = [{"o": "reject", "p": "C05", "id": "C05.loud", "why": "catunit", "category": c, "unit": fu}]
-            form = rng.choice(["Scalar.vuc", "Scalar.cvu", "Scalar.cu", "Array.Vuc", "FixedArray.dcVu", "FractionScalar.cvu", "q.uc", "q.ctor", "q.derived", "db.Convert", "db.Convert.container"])
+            form = rng.choice(["Scalar.vuc", "Scalar.cvu", "Scalar.cu", "Array.Vuc", "FixedArray.dcVu", "FractionScalar.cvu", "q.uc", "q.ctor", "q.derived", "db.Convert", "db.Convert.container", "db.CheckCategoryUnit", "db.CheckQuantityTypeUnit", "db.CheckValueForCategory"])
             v = self.value()
             if form == "Scalar.vuc":
                 o = self.op("mk.Scalar.vuc", "Scalar", "()", [v, fu, c])
@@ -996,6 +1031,12 @@ class ValueGen:
                 if c2 == c:
                     return None
                 o = self.op("mk.q.derived", "Quantity", "CreateDerived", [{"OD": [[c, {"L": [fu, 1]}], [c2, {"L": [u2, -1]}]]}])
+            elif form == "db.CheckCategoryUnit":
+                o = self.op("lk.db.CheckCategoryUnit", "db", "CheckCategoryUnit", [c, fu])
+            elif form == "db.CheckQuantityTypeUnit":
+                o = self.op("lk.db.CheckQuantityTypeUnit", "db", "CheckQuantityTypeUnit", [b1[0], fu])
+            elif form == "db.CheckValueForCategory":
+                o = self.op("val.db.CheckValueForCategory", "db", "CheckValueForCategory", [c, v, fu])
             elif form == "db.Convert":
                 tc = c if rng.random() < 0.5 else b1[0]
                 o = self.op("cv.db.Convert.float", "db", "Convert", [tc, self.unit_of(b1), fu, v] if rng.random() < 0.5 else [tc, fu, self.unit_of(b1), v])
